@@ -4,13 +4,16 @@ import random
 
 ID = 'C02'
 LEVEL = 'other'
-TARGETS = [
-    'selfies/grammar_rules.py::next_atom_state',
-    'selfies/grammar_rules.py::next_branch_state',
-    'selfies/grammar_rules.py::next_ring_state',
-    'selfies/grammar_rules.py::get_index_from_selfies',
-    'selfies/decoder.py::_read_index_from_selfies',
-]
+TARGETS = ['selfies/grammar_rules.py::next_atom_state',
+           'selfies/grammar_rules.py::next_branch_state',
+           'selfies/grammar_rules.py::next_ring_state',
+           'selfies/grammar_rules.py::get_index_from_selfies',
+           'selfies/decoder.py::_read_index_from_selfies',
+           'selfies/mol_graph.py::MolecularGraph.add_atom',
+           'selfies/mol_graph.py::MolecularGraph.add_bond',
+           'selfies/mol_graph.py::MolecularGraph.add_ring_bond',
+           'selfies/mol_graph.py::MolecularGraph.update_bond_order',
+           'selfies/utils/smiles_utils.py::smiles_to_bond']
 EXPLANATION = (
     "Mixed. PROVED (deductive, all inputs): the leaf rules of the derivation equal the documented formulas - "
     "next_atom_state (mu = min(beta, alpha, i), terminal iff alpha-mu = 0), next_branch_state (n = min(i-1, M), j = i-n), "
